@@ -147,6 +147,7 @@ DispatcherAgrees(e) ==
 J_classify(e) ==
     LET cl == Classify(e.frame) IN
     IF e.kind = "panic" \/ e.disp = "panic" THEN "panic"
+    ELSE IF e.prevNow # e.prevThen THEN "exception-handed-out-for-an-earlier-frame-changed-after-a-later-classification"
     ELSE IF cl.kind = "short" THEN (IF e.kind = "short" THEN "ok" ELSE "short-prefix-not-reported-too-short")
     ELSE IF e.kind = "short" THEN "too-short-reported-for-8-or-more-bytes"
     ELSE IF e.tag = "prefix" THEN
@@ -214,6 +215,9 @@ J_coilextract(e) ==
          IN IF bad = {} THEN "ok" ELSE verdictAt(CHOOSE i \in bad : TRUE)
 
 \* write-multiple-coils, then read back through a device that stores what the request carries
+\* the first n coils read with the payload's bytes taken in reverse order (C11-F1); the payload is bound as a VALUE
+\* (a set-constructor variable) so that it is computed once, not once per coil
+RevRead(data, n) == CHOOSE r \in {[i \in 1..n |-> BitOf(dd[Len(dd) - ((i - 1) \div 8)], (i - 1) % 8)] : dd \in {data}} : TRUE
 J_coilroundtrip(e) ==
     IF e.outcome = "panic" THEN "panic"
     ELSE IF ~e.accepted THEN "ok"
@@ -222,9 +226,23 @@ J_coilroundtrip(e) ==
          IN IF ~d.ok \/ d.r.fc # 15 \/ d.r.qty # n THEN "write-coils-request-does-not-decode"
             ELSE IF UnpackCoils(d.r.data, n) # e.coils THEN "write-coils-request-carries-a-different-pattern"
             ELSE IF e.got = e.coils THEN "ok"
-            ELSE IF Len(d.r.data) >= 2 /\ e.got = [i \in 1..n |-> BitOf(d.r.data[Len(d.r.data) - ((i - 1) \div 8)], (i - 1) % 8)]
+            ELSE IF Len(d.r.data) >= 2 /\ e.got = RevRead(d.r.data, n)
                  THEN "known:C11-F1"
             ELSE "coil-pattern-not-recovered-by-read-back"
+
+\* the same relation through the library's client and a conforming device on a connection: pattern A written and
+\* read back, then its complement; both responses are looked at after both rounds
+J_coildevice(e) ==
+    IF e.outcome = "panic" THEN "panic"
+    ELSE IF ~e.ran THEN (IF e.err = "" THEN "ok" ELSE "write-read-back-through-a-conforming-device-failed")
+    ELSE LET Rev(coils) == RevRead(PackCoils(coils), Len(coils))
+             V(coils, got) == IF got = coils THEN "ok"
+                              ELSE IF Len(coils) > 8 /\ got = Rev(coils) THEN "known:C11-F1"
+                              ELSE "bad"
+             va == V(e.coilsA, e.gotA) vb == V(e.coilsB, e.gotB)
+         IN IF vb = "bad" THEN "coil-pattern-not-recovered-by-read-back-through-a-device"
+            ELSE IF va = "bad" THEN "coils-of-an-earlier-response-changed-after-a-later-exchange"
+            ELSE IF va # "ok" THEN va ELSE vb
 
 ----------------------------------------------------------------------------
 Judge(e) ==
@@ -244,6 +262,7 @@ Judge(e) ==
       [] e.op = "coil"              -> J_coil(e)
       [] e.op = "coilextract"       -> J_coilextract(e)
       [] e.op = "coilroundtrip"     -> J_coilroundtrip(e)
+      [] e.op = "coildevice"        -> J_coildevice(e)
       [] OTHER                      -> "unknown-event"
 
 Init == l = 1
